@@ -241,5 +241,6 @@ pub fn run(ctx: &mut Ctx) {
         },
         run_case,
     );
+    ctx.campaign("nodes", CampaignCfg::new(t.pick(2_000, 40_000)).shards(16).shrink_iters(8), super::c05_nodes::strategy, super::c05_nodes::run_case);
     ctx.campaign("general-transport", CampaignCfg::new(t.pick(30_000, 2_400_000)).shards(16), || history_strategy(30, false, 2, true), run_case);
 }
